@@ -181,7 +181,7 @@ def cf2d_geom(draw, shoc_simple=False, max_n=5, holes=True, bounds=None, decoy=F
     hole_cells = draw(hole_mask(nj, ni, allow=holes))
     with_bounds = draw(st.booleans()) if bounds is None else bounds
     twisted = []
-    if twist and with_bounds and nj * ni > 1 and draw(st.integers(0, 3)) == 0:
+    if twist and with_bounds and nj * ni > 1 and (twist == "always" or draw(st.integers(0, 3)) == 0):
         spare = draw(st.integers(0, nj * ni - 1))
         twisted = [[j, i] for j in range(nj) for i in range(ni)
                    if not hole_cells[j][i] and j * ni + i != spare and draw(st.integers(0, 3)) == 0]
@@ -593,6 +593,20 @@ def _geometry(draw, conv, **kw):
 
 
 @st.composite
+def storage_options(draw, conv, with_vars=True):
+    """How the arrays of a dataset are held, independent of what they mean: single precision
+    geometry (where exact), column-major geometry arrays, column-major data arrays."""
+    out = {}
+    if conv != "cf1d" and draw(st.integers(0, 3)) == 0:
+        out["coord_dtype"] = "f4"
+    if conv != "cf1d" and draw(st.integers(0, 3)) == 0:
+        out["coord_layout"] = "F"
+    if with_vars and draw(st.integers(0, 3)) == 0:
+        out["data_layout"] = "F"
+    return out
+
+
+@st.composite
 def dimension_coordinates(draw, spec):
     """Integer dimension coordinates for some grid dimensions (a variable with the dimension's
     own name): one-based, shifted, reversed or shuffled labels, so that selecting by label and
@@ -650,12 +664,13 @@ def dataset_spec(draw, convs=ALL_CONVS, max_vars=3, min_vars=1, max_extra=2,
         spec["extra"]["tstep"] = spec["extra"].pop("time")
     spec["vars"] = draw(variables(spec, max_vars=max_vars, min_vars=min_vars,
                                   **(var_kwargs or {}))) if with_vars else []
-    if conv != "cf1d" and draw(st.integers(0, 3)) == 0:
-        spec["coord_dtype"] = "f4"
-    if conv != "cf1d" and draw(st.integers(0, 3)) == 0:
-        spec["coord_layout"] = "F"
-    if with_vars and draw(st.integers(0, 3)) == 0:
-        spec["data_layout"] = "F"
+    spec.update(draw(storage_options(conv, with_vars)))
+    if with_vars and draw(st.integers(0, 5)) == 0:
+        # dimensions named like the defaults emsarray makes up ("index", "point"), used by
+        # nothing but a coordinate variable
+        spec["coord_only_dims"] = {name: draw(st.integers(2, 3))
+                                   for name in draw(st.lists(st.sampled_from(["index", "index_0", "point"]),
+                                                             min_size=1, max_size=2, unique=True))}
     if conv == "arakawa":
         spec["coord_names_order"] = list(draw(st.permutations(["face", "left", "back", "node"])))
     if dim_coords and draw(st.integers(0, 3)) == 0:
